@@ -459,8 +459,9 @@ def batch(pid, tier, seed, budget_s, jobs, max_runs, chunk_size, per_run_wall):
         if harness_fail:
             for p in pending:
                 p.cancel()
+            procs = list((getattr(ex, "_processes", None) or {}).values())
             ex.shutdown(wait=False, cancel_futures=True)
-            for proc in list(getattr(ex, "_processes", {}).values()):
+            for proc in procs:
                 try:
                     proc.kill()
                 except Exception:  # noqa
